@@ -1367,11 +1367,17 @@ func (s *Server) ReplicateFileToAllMembers(ctx context.Context, name string, dat
 	if err != nil {
 		return err
 	}
+	// A member that cannot be reached must not keep the members listed after
+	// it from being offered the file: go on and report the first error.
+	var firstErr error
 	for _, member := range resp.Members {
 		clientUrls := member.GetClientUrls()
 		if len(clientUrls) == 0 {
 			log.Warn("failed to replicate file", zap.String("name", name), zap.String("member", member.GetName()), errs.ZapError(err))
-			return errs.ErrClientURLEmpty.FastGenByArgs()
+			if firstErr == nil {
+				firstErr = errs.ErrClientURLEmpty.FastGenByArgs()
+			}
+			continue
 		}
 		url := clientUrls[0] + filepath.Join("/pd/api/v1/admin/persist-file", name)
 		req, _ := http.NewRequestWithContext(ctx, "POST", url, bytes.NewBuffer(data))
@@ -1379,16 +1385,21 @@ func (s *Server) ReplicateFileToAllMembers(ctx context.Context, name string, dat
 		res, err := s.httpClient.Do(req)
 		if err != nil {
 			log.Warn("failed to replicate file", zap.String("name", name), zap.String("member", member.GetName()), errs.ZapError(err))
-			return errs.ErrSendRequest.Wrap(err).GenWithStackByCause()
+			if firstErr == nil {
+				firstErr = errs.ErrSendRequest.Wrap(err).GenWithStackByCause()
+			}
+			continue
 		}
 		// Since we don't read the body, we can close it immediately.
 		res.Body.Close()
 		if res.StatusCode != http.StatusOK {
 			log.Warn("failed to replicate file", zap.String("name", name), zap.String("member", member.GetName()), zap.Int("status-code", res.StatusCode))
-			return errs.ErrSendRequest.FastGenByArgs()
+			if firstErr == nil {
+				firstErr = errs.ErrSendRequest.FastGenByArgs()
+			}
 		}
 	}
-	return nil
+	return firstErr
 }
 
 // PersistFile saves a file in DataDir.
